@@ -429,3 +429,16 @@ package martian
 //@   requires ctx != nil
 //@   modifies nothing
 //@   ensures result == ctx.id
+
+// Per-request key/value store of a context (used by the Via modifier to flag a looping request).
+//@ func (*Context).Set
+//@   serves C14
+//@   requires ctxIdle(ctx) && ctx.vals != nil
+//@   modifies ctx.vals[key], ctx.mu.wheld
+//@   ensures ctxIdle(ctx) && has(ctx.vals, key) && ctx.vals[key] == val
+//@ func (*Context).Get
+//@   serves C14
+//@   requires ctxIdle(ctx)
+//@   modifies ctx.mu.rheld
+//@   ensures ctxIdle(ctx) && result1 == (ctx.vals != nil && has(ctx.vals, key)) && (result1 ==> result0 == ctx.vals[key]) && (!result1 ==> result0 == nil)
+//@ pred ctxOf(req *http.Request) = ctxs[req]
